@@ -728,3 +728,10 @@ M("C06-short-flag-prints-long", "C06", "src/cppparser/cppSimpleType.cxx",
 M("C06-benign-reorder-cases", "C06", "src/cppparser/cppSimpleType.cxx",
   "  case T_float:\n    out << \"float\";\n    break;\n\n  case T_double:\n    out << \"double\";\n    break;", "  case T_double:\n    out << \"double\";\n    break;\n\n  case T_float:\n    out << \"float\";\n    break;",
   benign=True)
+
+M("C20-fptr-lower-bound-dropped", "C20", "src/interrogatedb/interrogateDatabase.cxx",
+  "    if (module_index >= 0 && module_index < def->num_fptrs) {", "    if (module_index < def->num_fptrs) {",
+  expect="R20.1|InterrogateDatabase::get_fptr")
+M("C20-benign-fptr-bounds-swapped", "C20", "src/interrogatedb/interrogateDatabase.cxx",
+  "    if (module_index >= 0 && module_index < def->num_fptrs) {", "    if (module_index < def->num_fptrs && 0 <= module_index) {",
+  benign=True)
